@@ -394,7 +394,42 @@ def r18_7(ctx: Ctx) -> None:
                   "extractall() the first callback is told about the second call's preparation and post-processing after its own 'post'", construct="pre before earlier reporter stopped")
 
 
+def r18_8(ctx: Ctx) -> None:
+    """the plumbing between _extract and its reporter: (a) the thread is given the callback (`args=(callback,)`: without it the thread dies
+    with TypeError in `reporter()` and nothing is ever reported, while extraction and the tests go on); (b) it works on a queue of its own,
+    created on the path to the thread's creation (events of an earlier call whose reporter died in a callback are not this call's);
+    (c) every Worker.extract call that can run with a callback hands the queue over (`q=self.q`)."""
+    f = shared.szf(ctx, "_extract")
+    cfg = cfg_of(f.node)
+    threads = [c for c in q.calls(f) if attr_tail(c) == "Thread" and any(k.arg == "target" and norm(k.value) == "self.reporter" for k in c.keywords)]
+    ctx.floor("R18.8", len(threads), 1, "reporter thread creation in _extract")
+    cbp = next((p_ for p_ in f.params if p_ == "callback"), None)
+    ctx.need(cbp is not None, "_extract has no `callback` parameter")
+    for t in threads:
+        args = next((k.value for k in t.keywords if k.arg == "args"), None)
+        ok = isinstance(args, (ast.Tuple, ast.List)) and len(args.elts) == 1 and norm(args.elts[0]) == cbp
+        ctx.check(ok, "R18.8", f, t, "the reporter thread is given the callback", "the reporter thread is created without `args=(callback,)`: `reporter()` raises TypeError inside the thread, "
+                  "no event is ever delivered and extraction goes on as if nothing had happened", construct="reporter thread args")
+        fresh = [n for n in walk(f.node) if isinstance(n, ast.Assign) and norm(n.targets[0]) == "self.q" and isinstance(n.value, ast.Call) and (dotted(n.value.func) or "").endswith("Queue")]
+        ok = any(cfg.dominates(q.node_for(f, n), q.node_for(f, t)) for n in fresh)
+        ctx.check(ok, "R18.8", f, t, "the reporter works on a queue created for this call",
+                  "the reporter thread is started on the session's old queue: events that an earlier call left there (its reporter died in a callback, or it ran without one) are "
+                  "delivered to this call's callback, a stale sentinel ends it at once", construct="reporter on an old queue")
+    wcalls = [c for c in q.calls(f) if attr_tail(c) == "extract" and "worker" in norm(c.func.value)]
+    ctx.floor("R18.8", len(wcalls), 1, "Worker.extract calls in _extract")
+    for c in wcalls:
+        facts = q.facts_at(f, c)
+        without = any((nt := q.is_none_test(cd)) is not None and norm(nt[0]) == cbp and nt[1] == pol for cd, pol in facts)
+        if without:
+            continue  # the arm that runs without a callback
+        qa = next((k.value for k in c.keywords if k.arg == "q"), None)
+        ctx.check(qa is not None and norm(qa) == "self.q", "R18.8", f, c, "an extraction with a callback hands the queue to the worker",
+                  "a Worker.extract call that runs when a callback was given does not pass `q=self.q`: the worker reports nothing, the callback sees 'pre' and 'post' only",
+                  construct="worker without the queue")
+
+
 def run(ctx: Ctx) -> None:
+    r18_8(ctx)
     r18_7(ctx)
     r18_6(ctx)
     r18_1(ctx)
